@@ -1604,10 +1604,13 @@ def op_attempt(w, op):
         if group == "U" and not raised and res is not None:
             items = res if isinstance(res, list) else [res]
             for x in items:
+                if kind == "file":
+                    # '.file' is not in the statement's enumeration of navigation; observed only
+                    if is_node(x) and not fl <= flags_of(x):
+                        w.probe("file_on_restricted_node_gives_less_restricted_container")
+                    continue
                 if is_node(x) and not fl <= flags_of(x):
                     raise Violation("C15", "restriction-dropped", f"[{dv.kind}] {kind} from {node.name} ({sorted(fl)}) yielded {x.name} with flags {sorted(flags_of(x))}", shape=kind)
-                if kind == "file" and "local_only" not in fl:
-                    w.probe("file_on_restricted_node_gives_unrestricted_container")
     return out
 
 
